@@ -544,6 +544,7 @@ def envOfToken : String → Option Env
   | "next:more" => some (.mechNext (some (false, [2])))
   | "next:done" => some (.mechNext (some (true, [])))
   | "next:err" => some (.mechNext none)
+  | "next:errdone" => some (.mechNext none)      -- an error from Next wins over its `completed` result
   | _ => none
 
 def roleOfPhase : Phase → String
